@@ -136,6 +136,7 @@ def check(ctx):
     _guards(rep, model)
     _real_length(rep, ctx)
     _wavelet_crop(rep, model)
+    _wavelet_adjoint(rep, model)
     return rep
 
 
@@ -1109,6 +1110,84 @@ def _real_length(rep, ctx):
 # returns every odd transformed axis rounded up to the next even size; the
 # inverse transform must return, for every pattern of odd axes, the leading
 # block of the range shape (entries untouched), and reject anything else.
+# R9: for an orthogonal wavelet transform W on a space weighted by the cell
+# volume (coefficients unweighted), <W x, y> = y^T Q x and <x, W* y> =
+# vol * x^T (W* y): the adjoint is inverse / cell_volume -- the *whole* cell
+# volume, whichever axes are transformed -- and the adjoint of the inverse is
+# cell_volume * forward.
+def _wavelet_adjoint(rep, model):
+    from ..namodel import NA, NAHooks, NAInterp, objarr
+    WAV = 'odl/trafos/wavelet.py'
+    n = 0
+    for cname, expect_inv in (('WaveletTransform', True),
+                              ('WaveletTransformInverse', False)):
+        ci = model.get(cname)
+        if ci is None or 'adjoint' not in ci.methods:
+            raise AnalysisError('anchor vanished: %s.adjoint' % cname)
+        fn = ci.methods['adjoint']
+        for axes in (None, (0,), (1, 2), (0, 2), (-1,)):
+            n += 1
+            cons = '%s.adjoint[axes=%s]' % (cname, axes)
+            hs = [Rat.var('h%d' % i) for i in range(3)]
+            vol = hs[0] * hs[1] * hs[2]
+
+            class H(NAHooks):
+                def on_getattr(self, interp, obj, name):
+                    if isinstance(obj, Inst) and obj.ci.name == cname:
+                        if name == 'is_orthogonal':
+                            return True
+                        if name == 'inverse':
+                            return Rec('partner')
+                        if name in ('domain', 'range'):
+                            return space
+                        if name == 'axes':
+                            return tuple(range(3)) if axes is None else \
+                                tuple(a % 3 for a in axes)
+                    if isinstance(obj, Rec) and name in obj.attrs:
+                        return obj.attrs[name]
+                    return NAHooks.on_getattr(self, interp, obj, name)
+
+                def on_binop(self, interp, op, l, r):
+                    if isinstance(r, Rec) and r.kind == 'partner' and \
+                            op is ast.Mult:
+                        return Rec('scaled', scalar=l, op=r)
+                    if isinstance(l, Rec) and l.kind == 'partner' and \
+                            op in (ast.Mult, ast.Div):
+                        return Rec('scaled', scalar=l if op is ast.Mult
+                                   else None, op=l, right=r, bop=op)
+                    return NAHooks.on_binop(self, interp, op, l, r)
+            space = Rec('space', partition=Rec(
+                'partition', cell_volume=vol,
+                cell_sides=NA(objarr(list(hs)), 'float64')),
+                cell_volume=vol, cell_sides=NA(objarr(list(hs)), 'float64'))
+            try:
+                I = NAInterp(model, {}, H())
+                r = I.call_func(Func(fn, I.env_of(WAV), ci), [Inst(ci)], {})
+                if not (isinstance(r, Rec) and r.kind == 'scaled'):
+                    raise Undecided('adjoint is %r' % (r,))
+                sc = r.attrs.get('scalar')
+                if r.attrs.get('bop') is ast.Div:
+                    sc = Rat.const(1) / to_rat(r.attrs['right'])
+                elif r.attrs.get('bop') is ast.Mult:
+                    sc = r.attrs['right']
+                want = Rat.const(1) / vol if expect_inv else vol
+                if sc is None or not (to_rat(sc) - want).is_zero():
+                    rep.violation(
+                        'R9', cons, 'the adjoint is %r times the %s, the '
+                        'inner products of domain (cell volume %r) and '
+                        'coefficient space need %r' % (
+                            sc, 'inverse' if expect_inv else 'forward '
+                            'transform', vol, want), WAV, fn.lineno)
+                else:
+                    rep.holds('R9', cons, 'scaled by %r' % (want,))
+            except Undecided as e:
+                rep.undecided('R9', cons, str(e), WAV, fn.lineno)
+            except PyRaise as e:
+                rep.violation('R9', cons, 'raises %s' % e.name, WAV,
+                              fn.lineno)
+    rep.floor('R9', 'wavelet adjoint evaluations', n, 10)
+
+
 def _wavelet_crop(rep, model):
     import numpy as _np
     from ..namodel import NA, NAHooks, NAInterp, symbols
